@@ -356,7 +356,8 @@ PROPS = {
     "C15": dict(finite=[f_no_hidden_state, f_compile, f_matcher, f_docs("history")]),
     "C16": dict(finite=[f_docs("layout,insertion,errors")]),
     "C17": dict(finite=[f_corpus(["source", "ast", "pickles", "errors"], "events"), f_docs("stream,layout")]),
-    "C18": dict(finite=[f_table_extraction, f_build_once, f_lookahead_targets, f_corpus(["tokens"], "tokens"), f_traces]),
+    "C18": dict(finite=[f_table_extraction, f_build_once, f_lookahead_targets, f_corpus(["tokens"], "tokens"), f_traces,
+                        f_docs("documents")]),
     "C19": dict(finite=[f_markdown]),
 }
 
